@@ -427,7 +427,7 @@ impl<'a> Sem<'a> {
     fn visible_names(&self) -> Vec<(String, Ty, usize)> {
         let base = self.rec_base.unwrap_or(self.scopes.len()).min(self.scopes.len());
         let mut out: Vec<(String, Ty, usize)> = Vec::new();
-        let mut push = |n: &String, t: &Ty, d: usize, out: &mut Vec<(String, Ty, usize)>| {
+        let push = |n: &String, t: &Ty, d: usize, out: &mut Vec<(String, Ty, usize)>| {
             if !out.iter().any(|x| x.0 == *n) && !self.hidden.contains(n) {
                 out.push((n.clone(), t.clone(), d));
             }
